@@ -204,6 +204,7 @@ inductive LOp where
   | sort
   | sortKey
   | retain (keep : HVal → Bool)
+  | retainFn (p : HVal → Option Bool)
   | set (i : Num) (v : HVal)
   | setRange (a : Option Int64) (b : Option (Int64 × Bool)) (v : HVal)
 
@@ -211,6 +212,22 @@ def hvalLt (F : FloatOps) (a b : HVal) : Bool :=
   match toVal? a, toVal? b with
   | some x, some y => Sorting.valLt F x y
   | _, _ => false
+
+/-- `compare_values(b, a) == Less`, `none` = the comparison raises (operands that `<` rejects) -/
+def hvalLess? (F : FloatOps) (b a : HVal) : Option Bool :=
+  match toVal? b, toVal? a with
+  | some x, some y => vlt F x y
+  | _, _ => none
+
+/-- `list.retain` with a predicate function that can fail (`none`): since fix 8dd1e78 the list then
+consists of the values retained so far followed by the values that have not been tested -/
+def retainTry (p : HVal → Option Bool) : List HVal → List HVal × Bool
+  | [] => ([], true)
+  | x :: xs =>
+    match p x with
+    | none => (x :: xs, false)
+    | some true => let r := retainTry p xs; (x :: r.1, r.2)
+    | some false => retainTry p xs
 
 def hsortable (xs : List HVal) : Bool :=
   match toValList? xs with
@@ -244,7 +261,13 @@ def applyL (F : FloatOps) (self : HVal) (op : LOp) (xs : List HVal) : List HVal 
   | .fill v => (xs.map (fun _ => v), .ok self)
   | .reverse => (xs.reverse, .ok self)
   | .sort =>
-    if hsortable xs then (Sorting.sortBy (hvalLt F) xs, .ok self) else (xs, .err .type)
+    -- all comparisons succeed: the stable sorted permutation (`Sorting.sortBy`, see Props/C14);
+    -- otherwise `try_sort_by` stops at the first failing comparison and the list keeps the
+    -- permutation reached by the merges completed so far
+    if hsortable xs then (Sorting.sortBy (hvalLt F) xs, .ok self)
+    else
+      let r := Sorting.trySortBy (hvalLess? F) xs
+      (r.1, if r.2 then .ok self else .err .type)
   | .sortKey =>
     match mapOpt (fun x => (tupleKey x).map (fun k => (k, x))) xs with
     | some kxs =>
@@ -253,6 +276,9 @@ def applyL (F : FloatOps) (self : HVal) (op : LOp) (xs : List HVal) : List HVal 
       else (xs, .err .type)
     | none => (xs, .err .type)
   | .retain keep => (xs.filter keep, .ok self)
+  | .retainFn p =>
+    let r := retainTry p xs
+    (r.1, if r.2 then .ok self else .err .type)
   | .set i v =>
     if numNeg F i || xs.length ≤ numToNat F i then (xs, .err .index)
     else (xs.set (numToNat F i) v, .ok .null)
@@ -261,6 +287,11 @@ def applyL (F : FloatOps) (self : HVal) (op : LOp) (xs : List HVal) : List HVal 
     (xs.take s ++ List.replicate (e - s) v ++ xs.drop e, .ok .null)
 
 /-! ### map operations (`core_lib/map.rs`, `run_index_assign` Map arm) -/
+
+/-- keys on which `ValueKey::partial_cmp` is a total preorder: numbers only or strings only, plus null -/
+def keysComparable (ks : List Val) : Bool :=
+  ks.all (fun k => match k with | .num _ | .null => true | _ => false) ||
+  ks.all (fun k => match k with | .str _ | .null => true | _ => false)
 
 /-- the fixed callback of the modelled `map.update`: `|x| (x, 0)` -/
 def updFn (v : HVal) : HVal := .tuple [v, .num (.i 0)]
@@ -272,6 +303,8 @@ inductive MOp where
   | extend (es : List (Val × HVal))
   | clear
   | sort
+  | sortVal
+  | updateInc (k : Val) (dflt : HVal)
   | setIndex (i : Num) (k : Val) (v : HVal)
 
 /-- `mech = true` mirrors IndexMap's hashing (`getMatch` / `keyEqH`), `false` is the spec (keyEq) -/
@@ -300,7 +333,32 @@ def applyM (F : FloatOps) (mech : Bool) (self : HVal) (op : MOp) (es : List (Val
     | none => (es1, .panic)   -- `map.get(&key).unwrap()`
   | .extend other => (OMap.extend (insM F mech) es other, .ok self)
   | .clear => ([], .ok self)
-  | .sort => (Sorting.sortEntries F es, .ok self)
+  | .sort =>
+    -- `map.sort()`: `try_sort_by` with `ValueKey::partial_cmp`. On keys that are all numbers or all
+    -- strings (null sorts first) that comparison is a total preorder and the result is the stable
+    -- sorted permutation (`sortEntries`); on keys of mixed kinds it calls unrelated keys "Equal",
+    -- is not transitive, and the result is whatever the merge sort produces (finding F-C14-5)
+    if keysComparable (es.map Prod.fst) then (Sorting.sortEntries F es, .ok self)
+    else ((Sorting.trySortBy (fun b a => some (keyCmp F b.1 a.1 == .lt)) es).1, .ok self)
+  | .sortVal =>
+    -- `m.sort(|k, v| v)`: the entries are drained, sorted by value with `try_sort_by` and put back —
+    -- also when a comparison failed (then in the order reached so far)
+    if hsortable (es.map Prod.snd) then
+      (Sorting.sortBy (fun a b => hvalLt F a.2 b.2) es, .ok self)
+    else
+      let r := Sorting.trySortBy (fun b a => hvalLess? F b.2 a.2) es
+      (r.1, if r.2 then .ok self else .err .type)
+  | .updateInc k d =>
+    -- `m.update(k, d, |x| x + 1)`: `entry(k).or_insert(d)` happens before the function is called, so
+    -- the default stays in the map when the function raises
+    let es1 := match lookupBy (insM F mech) k es with
+      | some _ => es
+      | none => (OMap.insert (insM F mech) k d es).1
+    match lookupBy (insM F mech) k es1 with
+    | some (HVal.num n) =>
+      let v := HVal.num (Num.add F n (.i 1))
+      ((OMap.insert (insM F mech) k v es1).1, .ok v)
+    | _ => (es1, .err .type)
   | .setIndex i k v =>
     if numNeg F i || es.length ≤ numToNat F i then (es, .err .index)
     else
